@@ -32,9 +32,9 @@ def segments(pattern):
     return out
 
 
-def reference_states(cfg, n):
+def reference_states(cfg, n, ks=None):
     ref = {}
-    for k in range(1, n + 1):
+    for k in (range(1, n + 1) if ks is None else ks):
         with C.scratch() as tmp:
             cal = C.build(dict(cfg, saving_folder=str(tmp / "ck")) if cfg.get("use_folder", True) else cfg)
             try:
@@ -54,9 +54,10 @@ def run_path(cfg, pattern, ref):
     v = []
     reached = set()
     use_folder = cfg.get("use_folder", True)
+    manual = cfg.get("manual_ckpt", False)   # no saving folder: checkpoints are written by hand, only where the run is cut
     with C.scratch() as tmp:
         folder = tmp / "ck"
-        cal = C.build(dict(cfg, saving_folder=str(folder)) if use_folder else cfg)
+        cal = C.build(dict(cfg, saving_folder=str(folder)) if use_folder and not manual else cfg)
         k = 0
         for seg, boundary in segments(pattern):
             try:
@@ -76,6 +77,9 @@ def run_path(cfg, pattern, ref):
                 v.append((f"diverged-after-{'+'.join(sorted(set(pattern[:k - 1]) - {'n'})) or 'plain'}",
                           f"pattern {''.join(pattern)}: state after batch {k} differs from the uninterrupted run (next sampler {nxt}); first differences: {d[:3]}"))
                 return v, reached
+            if manual and boundary in ("r", "x"):
+                with quiet():
+                    cal.create_checkpoint(str(folder))
             if boundary == "x":
                 # retry workflow: a first restored object runs a batch WITHOUT touching the folder and is thrown away,
                 # then the run is restored again from the same, unchanged checkpoint
@@ -85,6 +89,8 @@ def run_path(cfg, pattern, ref):
                     throwaway.calibrate(1)
             if boundary in ("r", "x"):
                 cal = C.restore(folder, cfg)
+                if manual:
+                    cal.saving_folder = None
                 st2 = C.state(cal)
                 if st2 != ref[k][0]:
                     d = diff(ref[k][0], st2)
@@ -96,8 +102,12 @@ def run_path(cfg, pattern, ref):
 def run_cell(cell):
     res = {"evaluations": 0, "nontrivial": 0, "states": 0, "transitions": 0, "traces": 0, "stats": {}, "outcomes": set(), "violations": [], "samples": []}
     cfg, n = cell["cfg"], cell["n"]
-    ref = reference_states(cfg, n)
-    res["transitions"] += n * (n + 1) // 2
+    ks = None
+    if cell.get("patterns"):
+        # only the batch counts at which the listed patterns compare states
+        ks = sorted({k for pat in cell["patterns"] for k in itertools.accumulate(seg for seg, _ in segments(list(pat)))})
+    ref = reference_states(cfg, n, ks)
+    res["transitions"] += n * (n + 1) // 2 if ks is None else sum(ks)
     # the uninterrupted runs themselves must be prefixes of each other (batch for batch)
     allr = set()
     symbols = cell.get("symbols", "npr")
@@ -105,6 +115,8 @@ def run_cell(cell):
     if cell.get("single_cut"):
         # one boundary of each kind at every position (the other boundaries inside the same call) + everything cut
         patterns = [tuple(k if j == i else "n" for j in range(n - 1)) for i in range(n - 1) for k in symbols] + [tuple(symbols[0] for _ in range(n - 1)), tuple(symbols[-1] for _ in range(n - 1))]
+    if cell.get("patterns"):
+        patterns = [tuple(pat) for pat in cell["patterns"]]
     for pattern in patterns:
         vs, reached = run_path(cfg, list(pattern), ref)
         res["evaluations"] += 1
@@ -156,6 +168,13 @@ def main(ctx):
     for lu in ([["Halton", "RandomUniform", "RSequence"], ["RSequence", "ParticleSwarm", "BestBatch"]]):
         cells.append({"cfg": {"lineup": [{"cls": c, "bs": b} for c, b in zip(lu, (2, 3, 1))], "seed": S, "dims": 2, "model": "gauss2", "ensemble": 1}, "n": 5 if ctx.quick else 6,
                       "symbols": "pr" if ctx.quick else "npr"})
+    # a checkpoint whose scheduler pickle grows by ~28 MB at every other batch (a sampler carrying growing state, like a surrogate
+    # fitted on a growing history): 28, 56, 84 MB
+    big = {"lineup": [{"cls": "Halton", "bs": 2}, {"cls": "Ballast", "bs": 2}], "seed": S, "dims": 2, "model": "gauss2", "ensemble": 1, "T": 4}
+    cells.insert(0, {"cfg": big, "n": 6, "symbols": "nr", "patterns": [list("nnnrn"), list("nrnnn"), list("nnnnr")] if ctx.quick else [list(p_) for p_ in itertools.product("nr", repeat=5)]})
+    # checkpoints written by hand into one folder at irregular intervals (no saving folder, create_checkpoint only where the run is cut)
+    for lu in (lus[5], lus[13]):
+        cells.append({"cfg": {"lineup": lu, "seed": S, "dims": 2, "model": "gauss2", "ensemble": 2, "manual_ckpt": True}, "n": 5, "symbols": "npr"})
     # the retry workflow ('x': restore, run a batch on a throw-away object, restore again from the unchanged checkpoint)
     for lu in (lus[5], lus[13], lus[8]):
         cells.append({"cfg": {"lineup": lu, "seed": S, "dims": 2, "model": "gauss2", "ensemble": 1}, "n": 4, "symbols": "nprx"})
